@@ -169,7 +169,9 @@ func c06Oracle(toks []c06Tok, results []string) (bool, string, string) {
 		if res == "refused" && (cur != p) {
 			return false, "not_atomic", fmt.Sprintf("delivery %d (%s) failed but left %v (was %v)", i, tok, cur, p)
 		}
-		if (tok.fault > 0 || tok.cbFails) && res == "ok" && tok.cbFails {
+		// the callback runs (and its error counts) only where the fence moves the record away from `tried` or creates it
+		cbRuns := (tok.phase == 'P' && p.row == "-") || (tok.phase != 'P' && p.row == "tried")
+		if tok.cbFails && cbRuns && res == "ok" {
 			return false, "callback_error_ignored", fmt.Sprintf("delivery %d (%s) reported ok although the callback failed", i, tok)
 		}
 		if cur.t > 1 {
@@ -335,18 +337,23 @@ func runC06(c *Ctx) {
 		final := w.state(1)
 		w.close()
 		// candidates computed by replaying serial orders on fresh worlds with the real code
+		// a candidate is the final state together with the answers the two deliveries got; a delivery that does
+		// not take part in a serial order lost a lock or hit a duplicate key and must have been refused
 		cands := map[string]bool{}
-		for _, order := range [][]c06Tok{{a, b}, {b, a}, {a}, {b}, {}} {
+		for _, order := range [][]int{{0, 1}, {1, 0}, {0}, {1}, {}} {
 			w2 := newFenceWorld()
 			for _, t := range prefix {
 				w2.deliver(t.branch, t.phase, 0, false)
 			}
-			for _, t := range order {
-				w2.deliver(t.branch, t.phase, 0, false)
+			ans := []string{"refused", "refused"}
+			for _, k := range order {
+				t := []c06Tok{a, b}[k]
+				ans[k], _ = w2.deliver(t.branch, t.phase, 0, false)
 			}
-			cands[w2.state(1)] = true
+			cands[w2.state(1)+" "+ans[0]+" "+ans[1]] = true
 			w2.close()
 		}
+		final += " " + ra + " " + rb
 		ptoks := make([]string, len(prefix))
 		for k, t := range prefix {
 			ptoks[k] = t.String()
